@@ -215,6 +215,9 @@ pub enum Op {
     SlotChurn(u32),
     /// a future on executor `exec` that awaits a `TimeoutFuture` (which inserts a hidden Timer)
     ScheduleTimeout { exec: Id, task: Id, dl: Deadline },
+    /// EventLoop::run(timeout, ..) whose per-iteration closure requests a stop after `iters`
+    /// iterations (top level only)
+    Run { timeout: Timeout, iters: u32 },
 }
 
 pub const INTEREST_NAMES: [&str; 4] = ["EMPTY", "READ", "WRITE", "BOTH"];
@@ -332,6 +335,7 @@ impl Op {
             Op::AdapterPeerClose(_) => "AdapterPeerClose",
             Op::SlotChurn(_) => "SlotChurn",
             Op::ScheduleTimeout { .. } => "ScheduleTimeout",
+            Op::Run { .. } => "Run",
         }
     }
 }
